@@ -7,7 +7,7 @@ SUB_T = ['t_sub_lru_mru_ptr', 't_sub_insert_set_head', 't_sub_touch_ptr', 't_sub
          't_sub_realloc', 't_sub_realloc_fail']
 
 A_HB = 'A-HB: hashbrown 0.14.5 RawTable meets its documented contract for the API subset used (not verified; Kani cannot execute it)'
-A_SUB = 'A-SUB: contracts of the unsafe pointer layer L1 (set_head, touch_ptr, lru_ptr, mru_ptr, *_from_table, insert_into_table_with_hash, try_reallocate, reallocate, Entry::*, EntryPtr::*) are assumed by Verus (external_body); checked only boundedly by the Kani harnesses listed under bounded_obligations'
+A_SUB = 'A-SUB: contracts of the unsafe pointer layer L1 (set_head, touch_ptr, lru_ptr, mru_ptr, *_from_table, insert_into_table_with_hash, try_reallocate, reallocate, Entry::*, EntryPtr::*) are assumed by Verus in templates l2 / iter (external_body); they are checked boundedly by the Kani harnesses listed under bounded_obligations, and the link-level ones (set_head, touch_ptr, lru_ptr, mru_ptr, Entry::unhinge, EntryPtr::{unhinge,insert,new_seal}, insert_untracked, reallocate_into, the node contract A-NODE) are PROVED with their real bodies in template l1 over the mutable node heap -- in l1\'s own vocabulary; the identification of the clause pairs is by inspection (DESIGN section 3.8)'
 A_DOUBLE = 'A-DOUBLE: the Kani table double /verif/hooks/table.rs implements A-HB (hand-written, reviewed against hashbrown source)'
 A_PURE = 'A-PURE: heap_size/mem_size are deterministic functions of the value; sizes change only inside mutate'
 A_EQ = 'A-EQ/A-BORROW/A-HASH: the user Eq on K is an equivalence relation (axioms keq_refl, keq_sym -- it is NOT assumed to be spec equality: Eq-equal keys may be different values with different size estimates), keys matched by one borrowed query are equivalent (matches_unique), hashing is a deterministic function of the key (hash_of)'
